@@ -40,6 +40,14 @@ CHECKS = {
   "Same crash-image enumeration as C03; every image must open Ok (no Err, no panic); sampled recovered stores must follow the model through further writes, a restart and an acknowledged flush; recovery itself is traced and crashed again (depth 2). Failing images are classified by input class with the reference decoder.",
   "As C03. One known class (crash during rotation leaves a gap, known_findings.json) is reported as KNOWN-FINDING and counted as excluded.",
   "property-based testing (proptest) + crash-point enumeration incl. crash-during-recovery, open/usable oracle", "DESIGN.md §4 C05"),
+ "C04": ("fault_enumeration",
+  "Generated histories with many flushes x generated worker schedules x generated fault plans (k-th worker write/fdatasync fails once / repeatedly / forever with EIO or ENOSPC, short writes, EINTR). Every Ok callback in the trace is judged against the shadow file system: all bytes journalled before that flush are written, covered by a successful sync after the write, and equal the reference encoding; at-most-once, request order, exactly-once-Ok without faults.",
+  "Single incarnation for fault histories; a later successful fdatasync counts as covering earlier written bytes.",
+  "property-based testing (proptest) + fault injection and schedule control through libc interposition, trace oracle over a shadow file system", "DESIGN.md §4 C04"),
+ "C08": ("fault_enumeration",
+  "Purge-heavy generated histories x worker schedules x fdatasync fault plans; at every unlink in the trace: oldest-first, durable-image crash check right after the unlink (with and without the deleted file), no hole among remaining files; at a clean end the remaining files replay (reference decoder) to the model state and every provably obsolete closed chunk is gone.",
+  "Liveness clause in its conservative reading (see DESIGN.md); images in the known C05 rotation-gap class skipped in the crash sub-check.",
+  "property-based testing (proptest) + fault/crash enumeration at unlink events, metamorphic (with/without file) and model-prefix oracles", "DESIGN.md §4 C08"),
 }
 
 ALL = [f"C{i:02d}" for i in range(1, 17)]
